@@ -1,4 +1,4 @@
-// harness for gmlc::concurrency::DelayedObjects<long> (C18): int keys 1, 2 and the string key "a" (= key 3)
+// harness for gmlc::concurrency::DelayedObjects<long> (C18): int keys 1, 2 and the string key "1" (= key 3; spelled like int key 1 on purpose: names and indices are separate key spaces, seed C18e)
 #include "gmlc/concurrency/DelayedObjects.hpp"
 // the stored type has a real move: a moved-from Val holds a poison value, so a value moved twice shows up in a future
 struct Val {
@@ -63,27 +63,27 @@ int main(int argc, char** argv)
                             if (tab->claimed[k]) r = -3;  // a future is requested once per key
                             else {
                                 tab->claimed[k] = true;
-                                auto f = (k == 3) ? D->getFuture(std::string("a")) : D->getFuture(k);
+                                auto f = (k == 3) ? D->getFuture(std::string("1")) : D->getFuture(k);
                                 tab->fut[k] = f.share();
                                 tab->has[k] = true;
                             }
                         } else if (kd == 1) {
                             const Val v = val;
-                            if (k == 3) D->setDelayedValue(std::string("a"), v);
+                            if (k == 3) D->setDelayedValue(std::string("1"), v);
                             else D->setDelayedValue(k, v);
                         } else if (kd == 2) {
                             Val v = val;
-                            if (k == 3) D->setDelayedValue(std::string("a"), std::move(v));
+                            if (k == 3) D->setDelayedValue(std::string("1"), std::move(v));
                             else D->setDelayedValue(k, std::move(v));
                         } else if (kd == 3) {
                             D->fulfillAllPromises(Val(val));  // an rvalue: every pending promise must still get the value
                         } else if (kd == 4) {
-                            if (k == 3) D->finishedWithValue(std::string("a"));
+                            if (k == 3) D->finishedWithValue(std::string("1"));
                             else D->finishedWithValue(k);
                         } else if (kd == 5) {
-                            r = (k == 3) ? D->isRecognized(std::string("a")) : D->isRecognized(k);
+                            r = (k == 3) ? D->isRecognized(std::string("1")) : D->isRecognized(k);
                         } else if (kd == 6) {
-                            r = (k == 3) ? D->isCompleted(std::string("a")) : D->isCompleted(k);
+                            r = (k == 3) ? D->isCompleted(std::string("1")) : D->isCompleted(k);
                             w = tab->has[k] ? (ready(k) ? 1 : 0) : -1;  // readiness observed right after the answer (unknown while the future is still being handed out)
                         } else {
                             if (!tab->claimed[k]) r = -3;  // nothing to wait for
